@@ -1,8 +1,12 @@
+mod engine_history;
+mod engine_loader;
 mod engine_pipeline;
+mod engine_tour;
 mod gen_inst;
 mod inst;
 mod ojson;
 mod osched;
+mod refmodel;
 mod runner;
 mod sut;
 mod tape;
@@ -13,6 +17,9 @@ use std::time::{Duration, Instant};
 fn make_engine(prop: &str, tier: &str) -> Option<Box<dyn Engine>> {
     match prop {
         "C01" | "C02" | "C03" | "C04" | "C05" | "C06" | "C07" | "C16" => Some(Box::new(engine_pipeline::PipelineEngine::new(prop, tier))),
+        "C17" => Some(Box::new(engine_loader::LoaderEngine::new(tier))),
+        "C12" => Some(Box::new(engine_tour::TourEngine::new(tier))),
+        "C09" | "C10" | "C11" | "C13" => Some(Box::new(engine_history::HistoryEngine::new(prop, tier))),
         _ => None,
     }
 }
@@ -33,6 +40,34 @@ fn budget(prop: &str, tier: &str) -> (u32, u32, u64) {
                 (10000, 14, 3600)
             } else {
                 (504, 14, 900)
+            }
+        }
+        "C09" | "C10" | "C13" => {
+            if thorough {
+                (40000, 14, 3600)
+            } else {
+                (1512, 14, 900)
+            }
+        }
+        "C11" => {
+            if thorough {
+                (2000, 14, 3600)
+            } else {
+                (154, 14, 900)
+            }
+        }
+        "C12" => {
+            if thorough {
+                (5000, 14, 3600)
+            } else {
+                (308, 14, 900)
+            }
+        }
+        "C17" => {
+            if thorough {
+                (60000, 14, 3600)
+            } else {
+                (2002, 14, 900)
             }
         }
         _ => (100, 4, 600),
